@@ -793,8 +793,9 @@ class Parser:
         # Accept either NUMBER or IDENTIFIER after §
         section_id: str
         if self.current().type == TokenType.NUMBER:
-            # Traditional numbered section: §1, §2, etc.
-            section_id = str(self.current().value)
+            # Traditional numbered section: §1, §2, etc. The id is the number as written (§1.10 is not §1.1,
+            # §02 is not §2), the same text a §1.10 reference in a value keeps.
+            section_id = _token_to_str(self.current())
             self.advance()
 
             # Check for optional suffix (IDENTIFIER like 'b', 'c')
@@ -835,7 +836,7 @@ class Parser:
         elif self.current().type in (TokenType.NEWLINE, TokenType.INDENT, TokenType.LIST_START):
             # No explicit name, use section_id as the name (e.g., §CONTEXT:: → name is "CONTEXT")
             section_name = section_id
-        elif self.current().type == TokenType.NUMBER and str(self.current().value) == section_id:
+        elif self.current().type == TokenType.NUMBER and _token_to_str(self.current()) == section_id:
             # A numbered section without a name is emitted with the id repeated as its name
             # (§2:: is written §2::2): read that spelling back as what it was written from.
             section_name = section_id
@@ -843,7 +844,7 @@ class Parser:
         elif (
             self.current().type == TokenType.NUMBER
             and self.peek().type == TokenType.IDENTIFIER
-            and str(self.current().value) + str(self.peek().value) == section_id
+            and _token_to_str(self.current()) + str(self.peek().value) == section_id
         ):
             # Same for an id with a letter suffix (§2b:: is written §2b::2b).
             section_name = section_id
